@@ -2,6 +2,7 @@
 (sharded over worker processes), known findings, replays, evidence, verdict lines.
 See DESIGN.md 1.2-1.3."""
 import os, sys, re, json, time, subprocess, traceback, multiprocessing, glob
+import common
 from common import VERIF, LEAN, seed_env, jsonable
 import leandrv
 
@@ -264,5 +265,8 @@ def write_evidence(pid, tier, seed, t0, proof, run, rule, trusted_base, assumpti
         cov.update(extra_cov)
     ev = {"property_id": pid, "tier": tier, "seed": seed, "level": "proof", "coverage": jsonable(cov),
           "assumptions": assumptions, "wall_s": round(time.time() - t0, 2), "violations": nviol}
-    os.makedirs(os.path.join(VERIF, "evidence"), exist_ok=True)
-    json.dump(ev, open(os.path.join(VERIF, "evidence", pid + ".json"), "w"), indent=1)
+    # evidence/ describes runs against /repo itself; a run against a scratch worktree ($MYSTIC_REPO, used to try the
+    # checks on a seeded change) must not overwrite it
+    evdir = os.path.join(VERIF, "evidence") if os.path.realpath(common.REPO) == "/repo" else os.path.join(VERIF, "replays", "_scratch_evidence")
+    os.makedirs(evdir, exist_ok=True)
+    json.dump(ev, open(os.path.join(evdir, pid + ".json"), "w"), indent=1)
